@@ -4,7 +4,8 @@
                             min(k,n) rows of the batch with their own coordinates and positions,
                             none twice, ascending, and nothing left out is strictly closer;
       is_range dq rr X res- res holds exactly the rows of X with dq < rr, none twice;
-      Inv m t             - every point stored below a node of the ball tree t lies in its sphere. *)
+      Inv m t             - every point stored below a node of the ball tree t lies in its sphere;
+      dim_ok d t          - the points and centres of t have dimension d. *)
 From Coq Require Import List NArith Reals Permutation Sorting.Sorted.
 From LinfaVerif Require Import Common.Num C07.Model C07.Proofs.
 Import ListNotations.
@@ -111,10 +112,38 @@ Theorem error_cases : forall F (o : NumOps F) eps kd m leaf dim X q k r,
       exists res, index_range o eps kd m leaf dim X q r = inr (inr res))).
 Proof. intros. split; [apply index_knn_errors | apply index_range_errors]. Qed.
 
-(* OPEN (T2 of the design): bt_search_correct :
-     forall eps m t n q k, 0 <= eps -> Inv m t -> Permutation (tree_points t) (enumerate X) -> ... ->
-       is_knn (dq_of R_ops m q) k X (bt_knn R_ops eps m t n q k)
-       /\ is_range (dq_of R_ops m q) (to_r R_ops m r) X (bt_range R_ops eps m t n q r).
-   Not proved here: the queue invariant of the best-first loop.  What is proved instead is the
-   soundness of its two ingredients (bt_build_inv, bt_bound_sound); the answers of the search are
-   certified per run by the judges (judges_sound) on every explored query. *)
+(** The ball tree of the model - construction followed by the best-first search with its pruning -
+    answers every k-nearest and every range query correctly: for every metric (L1, L2, Linf), batch
+    of points of one dimension, leaf size >= 1, query of that dimension, k, radius and safety
+    margin factor eps >= 0 (eps = 0: the original bound; eps = 2^-52: the repaired code). *)
+Theorem bt_search_correct_knn : forall (m : metric) (eps : R) (leaf dm : nat) (X : list (list R)) (q : list R) (k : nat),
+  0 <= eps -> (1 <= leaf)%nat -> (forall x, In x X -> length x = dm) -> length q = dm ->
+  is_knn (dq_of R_ops m q) k X (bt_knn R_ops eps m (bt_new R_ops m leaf X) (length X) q k).
+Proof. intros; apply (ball_tree_knn_correct m eps leaf dm); auto. Qed.
+
+Theorem bt_search_correct_range : forall (m : metric) (eps : R) (leaf dm : nat) (X : list (list R)) (q : list R) (r : R),
+  0 <= eps -> (1 <= leaf)%nat -> (forall x, In x X -> length x = dm) -> length q = dm ->
+  is_range (dq_of R_ops m q) (to_r R_ops m r) X (bt_range R_ops eps m (bt_new R_ops m leaf X) (length X) q r).
+Proof. intros; apply (ball_tree_range_correct m eps leaf dm); auto. Qed.
+
+(** ... and this holds for the search on ANY tree that satisfies the sphere invariant, has
+    consistent dimensions and stores the rows of the batch (e.g. a tree built differently). *)
+Theorem bt_search_correct_any_tree : forall (m : metric) (eps : R) (X : list (list R)) (t : btree R) (q : list R) (dm : nat) (k : nat) (r : R),
+  0 <= eps -> Inv m t -> dim_ok dm t -> length q = dm -> Permutation (tree_points t) (enumerate X) ->
+  is_knn (dq_of R_ops m q) k X (bt_knn R_ops eps m t (length X) q k) /\
+  is_range (dq_of R_ops m q) (to_r R_ops m r) X (bt_range R_ops eps m t (length X) q r).
+Proof. intros. split; [eapply bt_knn_is_knn | eapply bt_range_is_range]; eauto. Qed.
+
+(** Interchangeability: on every query the linear scan and the ball tree return the same distances
+    (k nearest) and the same rows (range). *)
+Theorem linear_and_ball_tree_agree : forall (m : metric) (eps : R) (leaf dm : nat) (X : list (list R)) (q : list R) (k : nat) (r : R),
+  0 <= eps -> (1 <= leaf)%nat -> (forall x, In x X -> length x = dm) -> length q = dm ->
+  map (dq_of R_ops m q) (linear_knn R_ops m q k X)
+    = map (dq_of R_ops m q) (bt_knn R_ops eps m (bt_new R_ops m leaf X) (length X) q k) /\
+  (forall p, In p (linear_range R_ops m q r X)
+             <-> In p (bt_range R_ops eps m (bt_new R_ops m leaf X) (length X) q r)).
+Proof.
+  intros m eps leaf dm X q k r H1 H2 H3 H4. split.
+  - apply (knn_dists_unique (dq_of R_ops m q) k X); [apply linear_knn_is_knn | eapply ball_tree_knn_correct; eauto].
+  - apply (range_rows_unique (dq_of R_ops m q) (to_r R_ops m r) X); [apply linear_range_is_range | eapply ball_tree_range_correct; eauto].
+Qed.
